@@ -188,7 +188,7 @@ def main(tier):
             b.desc += ' -d gnu-ld'
             jobs.append(('config', b, {'cc': 'gcc', 'cflags': ('-O1',), 'w2c2_args': ('-d', 'gnu-ld')}))
     jobs.append(('config', names_module(), {'cc': 'gcc', 'cflags': ('-O1',)}))
-    seqlen = 3 if tier == 'quick' else 4
+    seqlen = 3 if tier == 'quick' else 5
     for mem, data, table, elems, start in (('defined', 'one', 'defined', 1, 'defined'), ('imported', 'overlap', 'imported', 2, 'defined'),
                                            ('defined', 'passive+active', 'none', 0, 'none'), ('imported', 'globaloff', 'defined', 2, 'imported')):
         b = config_module(mem, data, table, elems, start, two_instances=True)
